@@ -325,7 +325,8 @@ func checkC01(c *core.Ctx) error {
 	}
 	total := len(cases)
 	{
-		// fixed core: every body-form case whose type has at most one constructor (quick) / two (thorough);
+		// fixed core: every body-form case whose type has at most one constructor (quick) / two (thorough), every
+		// leaf-type case in every call-site form;
 		// plus a seeded sample of the rest (the universe has >150k cases since the call-site forms were widened)
 		maxCore, nRest := 2, 2000
 		if !c.Quick() {
@@ -333,7 +334,7 @@ func checkC01(c *core.Ctx) error {
 		}
 		var core_, rest []GenCase
 		for _, g := range cases {
-			if g.T.Size() <= maxCore && g.F == "body" {
+			if (g.T.Size() <= maxCore && g.F == "body") || g.T.Size() <= 1 {
 				core_ = append(core_, g)
 			} else {
 				rest = append(rest, g)
